@@ -4,7 +4,7 @@ import AbraProofs.Lemmas.SchedSolo
 # C10 — results do not depend on how the embedder slices execution
 
 Model: `Abra.Sched` (M4), for ANY deterministic thread step function `step : T → Action T V E`.
-`NoDone r` ("no finished thread is waiting in a queue") holds for `Runtime.new` and is preserved by
+`NoDone r` ("no thread that `finish_thread_turn` releases — finished, or a task stopped by an error — is waiting in a queue") holds for `Runtime.new` and is preserved by
 every operation (`C10_noDone_*`); it is needed: on a state with a finished task at the head of the run
 queue the real loop counts the dropped thread as skipped and can end the call early.
 -/
